@@ -22,10 +22,13 @@ namespace Pg.C15
 and `Evolution.recover` (fixes/C15-F22.patch, fixes/C15-F35.patch). -/
 theorem C15_quirks_patched : currentQuirks = Quirks.patched := by decide
 
-/-- Crash points are prefixes, and the live instance stopped after `k` events is the live instance
-of the run `run.take k`: every theorem below, stated for all runs, holds at every crash point. -/
-theorem C15_every_crash_point (env : Env) (a : Algo) (run : List Event) (k : Nat) :
-    runLive env a (run.take k) = (run.take k).foldl (step env a) ⟨setup a, []⟩ := rfl
+/-- Crash points are prefixes: the uninterrupted run passes through the state of its prefix of
+length `k` (and continues from there with the remaining events). Every theorem below is stated for
+all runs, hence holds for `run.take k`, for every `k` — see `C15_every_crash_point`. -/
+theorem C15_prefix_state (env : Env) (a : Algo) (run : List Event) (k : Nat) :
+    runLive env a run = (run.drop k).foldl (step env a) (runLive env a (run.take k)) := by
+  unfold runLive
+  rw [← List.foldl_append, List.take_append_drop]
 
 /-! ### Sweeping and Random -/
 
@@ -601,6 +604,13 @@ theorem C15_recover (env : Env) (hq : env.q = currentQuirks) (a : Algo) (hs : Su
     obtain ⟨np, nf, pop, si, ini, g, pend, si', ini', g', pend', h1, h2⟩ :=
       C15_recover_evolution env hq' init hb sz run
     rw [h1, h2]; rfl
+
+/-- …at every crash point `k` of every run. -/
+theorem C15_every_crash_point (env : Env) (hq : env.q = currentQuirks) (a : Algo) (hs : Supported a)
+    (run : List Event) (k : Nat) :
+    (recover env a (setup a) (runLive env a (run.take k)).hist).map observe
+      = .ok (observe (runLive env a (run.take k)).st) :=
+  C15_recover env hq a hs (run.take k)
 
 example : Supported (.deduping (.random 3 true) 0 1 4 false) := .dedupBase _ _ _ _ _ (Or.inr ⟨3, true, rfl⟩)
 example : Supported (.evolution .sweeping none) := .evoBase _ _ (Or.inl rfl)
